@@ -30,11 +30,11 @@ func init() { core.Register("C19", checkC19) }
 const genModule = "example.com/gen"
 
 type c19Method struct {
-	Name         string // proto name
-	GoName       string
-	CS, SS       bool
-	In, Out      string // Go type expressions as seen from the service's package
-	StreamIndex  int    // rank among the service's streaming methods (-1 for unary)
+	Name        string // proto name
+	GoName      string
+	CS, SS      bool
+	In, Out     string // Go type expressions as seen from the service's package
+	StreamIndex int    // rank among the service's streaming methods (-1 for unary)
 }
 
 type c19Service struct {
@@ -280,10 +280,10 @@ type c19Call struct {
 }
 
 type c19Reg struct {
-	Service     string
-	SameDesc    bool
-	Registered  int
-	Panic       string
+	Service    string
+	SameDesc   bool
+	Registered int
+	Panic      string
 }
 
 // runnerSource builds the main program that executes every generated client method.
